@@ -493,7 +493,7 @@ def run_shard(ctx):
         ctx.case(repr(case), True)
         if i < 3:
             ctx.sample(case)
-        if (i & 0x1F) == 0 and ctx.out_of_time():
+        if (i & 0x1F) == 0 and ctx.time_left() < ctx.budget_s * 0.25:
             break
     # gfm soup: random documents with disallowed tags sprinkled in
     for i in range(300 if quick else 20000):
